@@ -19,7 +19,8 @@
    their results: every completed call prints the history as a test for the real
    Provider. *)
 EXTENDS Naturals, Sequences, FiniteSets, TLC, Json
-CONSTANTS Names, Variant, MaxDefs, MaxGets, Emit, InjLen
+CONSTANTS Names, Variant, MaxDefs, MaxGets, Emit, InjLen,
+          Wide        \* {} or a set of names whose factories request TWO dependencies (and every name starts with an explicit factory)
 VARIABLES deps, fails,            \* the (fixed) factory behaviour: name -> seq of [t, opt]; set of failing factories
           inj,                    \* struct injection in progress: [on, fs (fields), i (current field), got (results so far)]
           DI, DF, F, inst,        \* the four tables (inst: name -> tag)
@@ -35,13 +36,19 @@ DepsJson == { [n |-> n, d |-> deps[n]] : n \in Names }
 EmitHist(h) == Emit => PrintT(ToJson([k |-> "di", deps |-> DepsJson, fails |-> fails, hist |-> h]))
 Edge == [t : Names, opt : BOOLEAN]
 DepChoices == {<<>>} \cup { <<e>> : e \in Edge }
+WideChoices == { <<e1, e2>> : e1 \in Edge, e2 \in Edge }
 NoInj == [on |-> FALSE, fs |-> <<>>, i |-> 0, got |-> <<>>]
 InjShapes == IF InjLen = 0 THEN {} ELSE { f \in [1..InjLen -> Edge] : f[1].t = CHOOSE n \in Names : TRUE }
-Init == /\ deps \in [Names -> DepChoices] /\ fails \in SUBSET Names /\ inj = NoInj
-        /\ DI = {} /\ DF = {} /\ F = {} /\ inst = << >> /\ blocked = FALSE /\ callstack = <<>>
-        /\ frames = <<>> /\ ret = "none" /\ calls = [n \in Names |-> 0] /\ ndefs = 0 /\ ngets = 0
-        /\ top = "none" /\ out = <<"none","none","-">> /\ gSet = {} /\ gF = {} /\ gDI = {} /\ gDF = {}
-        /\ built = [n \in Names |-> 0] /\ hist = <<>>
+Init == /\ deps \in { d \in [Names -> DepChoices \cup WideChoices] : \A n \in Names : (Len(d[n]) = 2) = (n \in Wide) }
+        /\ fails \in SUBSET Names /\ inj = NoInj
+        /\ DI = {} /\ DF = {} /\ inst = << >> /\ blocked = FALSE /\ callstack = <<>>
+        /\ F = (IF Wide = {} THEN {} ELSE Names) /\ gF = F /\ ndefs = (IF Wide = {} THEN 0 ELSE MaxDefs)
+        /\ hist = (IF Wide = {} THEN <<>> ELSE [i \in 1..Cardinality(Names) |->
+                       [call |-> "addfactory", n |-> (CHOOSE s \in [1..Cardinality(Names) -> Names] : \A a, b \in 1..Cardinality(Names) : a # b => s[a] # s[b])[i],
+                        res |-> "ok", tag |-> "-", calls |-> [x \in Names |-> 0]]])
+        /\ frames = <<>> /\ ret = "none" /\ calls = [n \in Names |-> 0] /\ ngets = 0
+        /\ top = "none" /\ out = <<"none","none","-">> /\ gSet = {} /\ gDI = {} /\ gDF = {}
+        /\ built = [n \in Names |-> 0]
 Ext(f, n, v) == [x \in DOMAIN f \cup {n} |-> IF x = n THEN v ELSE f[x]]
 Quiet == frames = <<>> /\ ret = "none" /\ top = "none"
 Def(body) == /\ Quiet /\ ~inj.on /\ ndefs < MaxDefs /\ ndefs' = ndefs + 1 /\ body
